@@ -47,6 +47,8 @@ def cases(tier, seed):
     # ranges and wildcards as members: "matches one of the characters or character ranges given in the brackets"
     kc = 2 if tier == "quick" else 3
     out += [{"tokens": kc, "pathlen": 4, "shard": "%d/%d" % (i, 8), "alpha": "cls"} for i in range(8)]
+    # alternations whose alternatives are prefixes of one another (shorter one first / last) or share a prefix
+    out += [{"tokens": 3 if tier == "quick" else 4, "pathlen": 6, "shard": "%d/%d" % (i, 8), "alpha": "alt"} for i in range(8)]
     # two --path patterns at once
     out += [{"pairs": True, "tokens": 2, "pathlen": 3 if tier == "quick" else 4, "shard": "%d/%d" % (i, 32)} for i in range(32)]
     # command-line cross-check: --name / --path / --exclude x -i on the real binary over a fixed tree
@@ -189,3 +191,7 @@ def finish(stats, tier):
 
 
 RULE += ' Since round 11 also: the command-line cross-check started from working directories whose names are glob syntax.'
+
+
+RULE += (" Since round 12 also: an alternation-centred alphabet {a, b, -, /, *, **, {ab,a}, {a,ab}, @(ab|a), {ab-,aba,ab}, {ab,a-}, {a/b,a}} "
+         "(alternatives that are prefixes of one another, in both orders) x all paths of <=6 characters over {a, b, -, /}.")
